@@ -98,6 +98,11 @@ class ShimTorch(types.ModuleType):
         return torch.full(size, fill_value, **kw)
 
     @staticmethod
+    def arange(*a, **k):
+        # integer proxies as range bounds are concretised (forking on their value)
+        return torch.arange(*[x.__index__() if isinstance(x, core.SInt) else x for x in a], **k)
+
+    @staticmethod
     def symzeros(*size, dtype=torch.float32):
         return mk(_filled(tuple(size), 0), dtype)
 
